@@ -295,22 +295,26 @@ example : complete exRec 2 (.nt "<start>" none none) [mA, mB, mQ] = true := by d
 example : complete exRec 2 (.nt "<start>" none none) [mA, mB] = false := by decide
 example : mA ≠ mC := by decide
 
-/-! ## what the code computes is not the set of continuations -/
+/-! ## the model of the code on the witnesses of the repaired defects (F36, F38, F41, F42)
+
+Regression witnesses (`decide`): the inputs on which the code used to deviate; the model of the current code
+agrees with the verified forecaster on each of them (each is also in the corpus of the check and run on the
+implementation). -/
 
 /-- `<start> ::= (<C:S:a> <S:C:b>)* <C:S:c>` -/
 def exStar : Grammar :=
   { rules := [("<start>", .cat "c2" [.rep "s1" .star (.cat "c1" [atom mA, atom mB]) 0 none, atom mC])] }
 def exStarStart : Node := .nt "<start>" none none
 
-/-- **the current visitor offers a message that cannot follow**: after the history `[a]` of
-    `(a b)* c` the only continuation is `b`, but `visitRepetitionType` returns `True` as soon as
-    `tree_len >= rep_min` — although the last iteration `a ·` is incomplete — so the walk goes on to the
-    sibling and `c` is offered as well.  (Replayed on the implementation by the check.) -/
-theorem C19_code_offers_non_continuation :
-    codeNexts false exStar 20 2 exStarStart [mA] = [mB, mC] ∧
+/-- F36 (ebdb490d): after the history `[a]` of `(a b)* c` the only continuation is `b`; the visitor no longer
+    leaves the repetition while its last iteration `a ·` is unfinished -/
+theorem C19_code_on_unfinished_iteration :
+    codeNexts exStar 20 2 exStarStart [mA] = [mB] ∧
     nexts exStar 2 exStarStart [mA] = [mB] ∧
-    ¬ Cont exStar exStarStart [mA] mC := by
-  refine ⟨by decide, by decide, ?_⟩
+    ¬ Cont exStar exStarStart [mA] mC ∧
+    codeNexts exStar 20 2 exStarStart [mA, mB] = [mA, mC] ∧
+    codeNexts exStar 20 2 exStarStart [] = [mA, mC] := by
+  refine ⟨by decide, by decide, ?_, by decide, by decide⟩
   intro hc
   have hr : rankOk exStar (fun _ => 0) 2 = true := by decide
   have hp : productiveB exStar 2 = true := by decide
@@ -318,27 +322,20 @@ theorem C19_code_offers_non_continuation :
   revert this
   decide
 
-/-- with the repaired return value (`return last-iteration-complete` instead of `True`) the walk
-    agrees with the continuations on the witness and on its neighbours -/
-theorem C19_fixed_visitor_on_witness :
-    codeNexts true exStar 20 2 exStarStart [mA] = [mB] ∧
-    codeNexts true exStar 20 2 exStarStart [mA, mB] = [mA, mC] ∧
-    codeNexts true exStar 20 2 exStarStart [] = [mA, mC] ∧
-    codeNexts false exStar 20 2 exStarStart [mA, mB] = [mA, mC] := by
-  decide
-
-/-- `predict` never reports the empty history complete, even when the empty interaction is in the
-    language (`<start> ::= <C:S:a>?`) -/
-theorem C19_code_empty_history_never_complete :
+/-- F38 (fc0f6663): the empty history is complete when the empty interaction is in the language
+    (`<start> ::= <C:S:a>?`) -/
+theorem C19_code_empty_history_complete :
     let G : Grammar := { rules := [("<start>", .rep "o1" .opt (atom mA) 0 (some 1))] }
-    complete G 2 exStarStart [] = true ∧ codeComplete G 2 exStarStart [] = false := by
+    complete G 2 exStarStart [] = true ∧ codeComplete G 2 exStarStart [] = true := by
   decide
 
-/-! ## (d) slicing: what `slice_parties` computes is not the visible projection
+/-- what `predict` reports as complete is, in the model of the code, the verified `complete` -/
+theorem C19_code_complete_iff (G : Grammar) (rank : String → Nat) (F : Nat) (start : Node)
+    (hL : NoLeftRec G rank F) (h : List Msg) :
+    codeComplete G F start h = true ↔ LangMsg G start h :=
+  C19_complete_iff G rank F start hL h
 
-No general slicing theorem is proved.  `sliceG` models `slice_parties`/`PacketTruncator` line by line (tied to
-the real function rule by rule on every run); the two witnesses below are the machine-checked reasons why the
-projection property fails for it, each replayed on the implementation by the check. -/
+/-! ## (d) slicing -/
 
 def sA0 : Msg := ⟨"A", some "B", "<m0>"⟩
 def sB1 : Msg := ⟨"B", some "C", "<m1>"⟩
@@ -349,25 +346,23 @@ def sC1 : Msg := ⟨"C", some "A", "<m1>"⟩
 def exSlice : Grammar :=
   { rules := [("<start>", .cat "c1" [atom sA0, .alt "a1" [atom sB1, atom sA2]])] }
 
-/-- **an alternative that consists of invisible messages is deleted, not emptied**: `m0 m1` is an interaction,
-    its part visible to `A` is `m0`, and `m0` is not an interaction of the sliced grammar -/
-theorem C19_slice_drops_invisible_alternative :
+/-- F42 (e74d4443): an alternative that consists of invisible messages is the empty way through: `m0 m1` is
+    an interaction, its part visible to `A` is `m0`, and `m0` is an interaction of the sliced grammar -/
+theorem C19_slice_keeps_invisible_alternative :
     complete exSlice 2 exStarStart [sA0, sB1] = true ∧
-    project ⟨["A"], false, false⟩ [sA0, sB1] = [sA0] ∧
-    complete (sliceG ⟨["A"], false, false⟩ exSlice) 2 exStarStart [sA0] = false ∧
-    isPrefix (sliceG ⟨["A"], false, false⟩ exSlice) 2 exStarStart [sA0] = true := by
+    project ⟨["A"], false⟩ [sA0, sB1] = [sA0] ∧
+    complete (sliceG ⟨["A"], false⟩ exSlice) 2 exStarStart [sA0] = true ∧
+    nexts (sliceG ⟨["A"], false⟩ exSlice) 2 exStarStart [sA0] = [sA2] := by
   decide
 
 /-- `<start> ::= (<C:A:m1> | <B:C:m1> | <A:B:m2>)` -/
 def exSliceEq : Grammar :=
   { rules := [("<start>", .alt "a1" [atom sC1, atom sB1, atom sA2])] }
 
-/-- **`list.remove(child)` removes the first child with the same symbol**: slicing to `A` must drop the
-    invisible `<B:C:m1>`; removal by `==` (the code) drops the visible `<C:A:m1>` instead -/
-theorem C19_slice_removes_first_equal :
-    nexts (sliceG ⟨["A"], false, true⟩ exSliceEq) 2 exStarStart [] = [sB1, sA2] ∧
-    nexts (sliceG ⟨["A"], false, false⟩ exSliceEq) 2 exStarStart [] = [sC1, sA2] ∧
-    visible ⟨["A"], false, true⟩ sB1 = false ∧ visible ⟨["A"], false, true⟩ sC1 = true := by
+/-- F41 (ed4e9a62): slicing to `A` drops the invisible `<B:C:m1>` and keeps the visible `<C:A:m1>` -/
+theorem C19_slice_removes_invisible_occurrence :
+    nexts (sliceG ⟨["A"], false⟩ exSliceEq) 2 exStarStart [] = [sC1, sA2] ∧
+    visible ⟨["A"], false⟩ sB1 = false ∧ visible ⟨["A"], false⟩ sC1 = true := by
   decide
 
 end Fc
